@@ -54,7 +54,9 @@ def run(ctx):
     curves = ['bn254', CURVES[1 + ctx.seed % 6]] if quick else CURVES
     pairs = []
     for curve in curves:
-        recs = ctx.harness(['c06corpus', '--curve', curve], timeout=3600)
+        recs = ctx.harness(['c06corpus', '--curve', curve], timeout=3600, crash_ok=True)
+        if ctx.last_crash:
+            ctx.report('solving a corpus circuit crashed the process: %s' % vlib_digits(ctx.last_crash), {'curve': curve, 'crash': ctx.last_crash})
         for r in recs:
             ctx.case(key='corpus %s %s %s' % (curve, r['circuit'], r['system']), nontrivial=r['solutions'] > 0)
             ctx.traces += r['solutions']
